@@ -439,15 +439,35 @@ func checkRouter(r *rtRun) {
 			break
 		}
 	}
-	// lock request stamp of each transmission: the latest request of the same task before it
-	for i := range txs {
+	// when each transmitting task got in line for the send lock: the latest "queued" event (or, if
+	// the lock was free, "acquire" event) of the same task before the transmission
+	inLine := func(task int, before uint64) Stamp {
+		// latest "queued" of the task before the instant; an "acquire" counts only if the task
+		// did not queue for it
 		for j := len(r.locks) - 1; j >= 0; j-- {
 			ev := r.locks[j]
-			if ev.M == sendMu && ev.Kind == "request" && ev.Task == txs[i].Task && r.lockAt[j].Seq < txs[i].At.Seq {
-				txs[i].Req = r.lockAt[j]
-				break
+			if ev.M != sendMu || ev.Task != task || r.lockAt[j].Seq >= before {
+				continue
+			}
+			switch ev.Kind {
+			case "queued":
+				return r.lockAt[j]
+			case "acquire":
+				for k := j - 1; k >= 0; k-- {
+					if r.locks[k].M == sendMu && r.locks[k].Task == task {
+						if r.locks[k].Kind == "queued" {
+							return r.lockAt[k]
+						}
+						break
+					}
+				}
+				return r.lockAt[j]
 			}
 		}
+		return Stamp{}
+	}
+	for i := range txs {
+		txs[i].Req = inLine(txs[i].Task, txs[i].At.Seq)
 	}
 	byID := map[int]*rtSend{}
 	for _, s := range append(append([]*rtSend(nil), r.sends...), r.lateSends...) {
@@ -483,10 +503,26 @@ func checkRouter(r *rtRun) {
 	}
 	// The receive loop asks for the send lock once per routing-busy and once per routing-lost
 	// indication, in the order in which it read them.
+	// (it is "in line" from the moment it joined the wait queue, or took the free lock)
 	var serveReq []Stamp
 	for j, ev := range r.locks {
-		if ev.M == sendMu && ev.Kind == "request" && ev.Task == serveTask {
+		if ev.M != sendMu || ev.Task != serveTask {
+			continue
+		}
+		if ev.Kind == "queued" {
 			serveReq = append(serveReq, r.lockAt[j])
+		} else if ev.Kind == "acquire" && !(j > 0 && r.locks[j-1].M == sendMu && r.locks[j-1].Task == serveTask && r.locks[j-1].Kind == "queued") {
+			// acquired without waiting
+			prevQueued := false
+			for k := j - 1; k >= 0; k-- {
+				if r.locks[k].M == sendMu && r.locks[k].Task == serveTask {
+					prevQueued = r.locks[k].Kind == "queued"
+					break
+				}
+			}
+			if !prevQueued {
+				serveReq = append(serveReq, r.lockAt[j])
+			}
 		}
 	}
 	type busyAt struct {
